@@ -10,6 +10,7 @@ import Rare.Gen.Tables
 import Rare.Proofs.C08Guards
 import Rare.Proofs.C08Extra
 import Rare.Proofs.C08Loops
+import Rare.Proofs.C08Sites
 import Rare.Proofs.C08Format
 import Rare.Proofs.C08TimeW
 import Rare.Proofs.C18Cal
@@ -889,5 +890,79 @@ theorem for_counter_safe (idx : Int) (h0 : 0 ≤ idx) :
     unfold wrap64; omega
 
 example : Gen.C08.forCountGuard 1000000 = false ∧ Gen.C08.forCountGuard 1000001 = true := by decide
+
+/-! ## Every operation that can panic: the census regenerated from /repo -/
+
+/-- **The arithmetic of the `{@range}` closure is exactly the loop's**: the closure consists of the three
+    parses, the three validations, the builder, the counter, the loop and the return - nothing else -, and
+    its only arithmetic is `i += incr` (`range_counter_safe`), `count++` (`for_counter_safe`) and the two
+    differences of the overflow `break`, which are evaluated only behind `incr > 0 &&` / `incr < 0 &&` and
+    are true int64 differences there.  (A statement added next to the loop - such as pre-sizing the
+    builder with `sb.Grow((stop-start)/incr)`, whose difference is not an int64 for a span beyond
+    `MaxInt64`: `range_span_not_int64` - is a new line of `rangeClosureShape` and of `rangeArith`.) -/
+theorem range_arith_safe (incr : Int) (hc : inInt64 incr = true) :
+    Gen.C08.rangeClosureShape = ["start, err := strconv.Atoi(sStart(context))", "if err != nil { return ErrorNum }",
+      "stop, err := strconv.Atoi(sStop(context))", "if err != nil { return ErrorNum }",
+      "incr, err := strconv.Atoi(sIncr(context))", "if err != nil { return ErrorNum }",
+      "if incr == 0 { return ErrorValue }", "if incr > 0 && start > stop { return ErrorValue }",
+      "if incr < 0 && start < stop { return ErrorValue }", "var sb strings.Builder", "count := 0",
+      "for i := start; (incr > 0 && i < stop) || (incr < 0 && i > stop); i += incr", "return sb.String()"] ∧
+    Gen.C08.rangeArith = ["arith: i += incr", "arith: count++", "arith: math.MaxInt - incr", "arith: math.MinInt - incr"] ∧
+    (incr > 0 → wrap64 (maxInt64 - incr) = maxInt64 - incr ∧ 0 ≤ maxInt64 - incr) ∧
+    (incr < 0 → wrap64 (minInt64 - incr) = minInt64 - incr ∧ minInt64 - incr ≤ 0) := by
+  rw [C11.inInt64_iff] at hc
+  refine ⟨rfl, rfl, ?_, ?_⟩ <;> intro h <;> unfold wrap64 <;> unfold minInt64 maxInt64 at * <;> omega
+
+/-- Why the number of rounds of `{@range}` cannot be computed up-front as `(stop-start)/incr`: the span of two
+    int64 values that pass the validation (`start ≤ stop`, `incr > 0`) need not be an int64 - the wrapped
+    difference is negative (`strings.Builder.Grow` panics on it), or, doubled, wraps back to a harmless
+    small number. -/
+theorem range_span_not_int64 :
+    inInt64 minInt64 = true ∧ inInt64 maxInt64 = true ∧ minInt64 ≤ maxInt64 ∧
+    wrap64 (maxInt64 - minInt64) = -1 ∧
+    wrap64 (5000000000000000000 - (-5000000000000000000)) = -8446744073709551616 ∧
+    goDiv (wrap64 (5000000000000000000 - (-5000000000000000000))) 1000000000000000000 = -8 ∧
+    wrap64 (2 * wrap64 (1 - minInt64)) = 2 := by decide
+
+/-- **Literal indices into the argument list are behind an arity check**: for every `args[k]` with a literal
+    `k` in the helper library and in `Compile` (and `s.stages[0]` in `BuildKey` / `joinStages`), the arity
+    checks that enclose the access (`if len(args) != 2 { return … }`, `if !isArgCountBetween(args, 1, 3)`,
+    `if len(args) >= 3 { … }`, `switch len(args) { case 2: … }` - followed by the translator) establish
+    `len(args) > k`. -/
+theorem arg_indexes_guarded : ∀ e ∈ Gen.C08.argIndexes, e.2.1 < e.2.2 := by decide
+
+example : ("funcsRange.go kfArrayRange", 2, 3) ∈ Gen.C08.argIndexes ∧ ("keyBuilder.go BuildKey s.stages", 0, 1) ∈ Gen.C08.argIndexes ∧
+    Gen.C08.argIndexes.length = 103 := by decide
+
+/-- **`Splitter.Next` keeps its position inside the string**: when `0 ≤ next ≤ len(S)` and `strings.Index`
+    found the delimiter at `idx` of the remainder (`0 ≤ idx`, `idx + len(Delim) ≤ len(S) - next`), the slice
+    `s.S[next : next+idx]` is in range and the new position `next + idx + len(Delim)` is again `≤ len(S)`,
+    all sums being true int64 sums; the statements around them are pinned (the `next < 0` exit in front,
+    the not-found branch that ends the iteration). -/
+theorem splitter_next_safe (next idx lenDelim lenS : Int) (h0 : 0 ≤ next) (h1 : next ≤ lenS) (hS : lenS ≤ maxInt64)
+    (hi : 0 ≤ idx) (hd : 0 ≤ lenDelim) (hfound : idx + lenDelim ≤ lenS - next) :
+    Gen.C08.splitterNext next idx lenDelim = (next, next + idx, next + idx + lenDelim) ∧
+    0 ≤ next ∧ next ≤ next + idx ∧ next + idx ≤ lenS ∧
+    0 ≤ next + idx + lenDelim ∧ next + idx + lenDelim ≤ lenS ∧
+    Gen.C08.splitterNextShape = ["if s.next < 0 { return \"\" }", "idx := strings.Index(s.S[s.next:], s.Delim)", "if idx < 0",
+      "idx += s.next", "ret = s.S[s.next:idx]", "s.next = idx + len(s.Delim)", "return"] := by
+  have e1 : wrap64 (idx + next) = next + idx := by unfold wrap64; unfold maxInt64 at hS; omega
+  have e2 : wrap64 (next + idx + lenDelim) = next + idx + lenDelim := by unfold wrap64; unfold maxInt64 at hS; omega
+  refine ⟨?_, h0, by omega, by omega, by omega, by omega, rfl⟩
+  simp only [Gen.C08.splitterNext, e1, e2]
+
+example : Gen.C08.splitterNext 2 3 2 = (2, 5, 7) := by decide
+
+set_option maxRecDepth 4096 in
+/-- **Every operation of the anchor files that can panic is accounted for**: the divisions and remainders by
+    a non-constant, the shifts by a non-constant, the index and slice expressions, the sizing calls (`Grow`,
+    `make`, `strings.Repeat`), the explicit `panic`, the unchecked type assertions and the sums / differences
+    / products of two non-constant operands of keyBuilder.go, argSplitter.go, the stdlib files of the
+    property, stdmath/ops.go and stringSplitter/splitter.go - as listed by the translator from /repo on
+    every run - are exactly the lines of `siteTable`, each of which names the guard (a theorem of this
+    file, or the structural reason) that makes it safe. -/
+theorem panic_sites_classified :
+    Gen.C08.panicSites = siteTable.map (·.1) ∧ (siteTable.all fun p => p.2 != "") = true :=
+  ⟨rfl, rfl⟩
 
 end Rare.C08
